@@ -299,3 +299,186 @@ def rule_omitted_defaults(chk, fb, rid, exclude=()):
                    detail="attribute `%s` is omitted when the value is %s; an absent attribute is read as %s::%s" % ((pushes or else_pushes)[0], variant.split("::")[-1], enum.split("::")[-1], dv))
             n += 1
     chk.ob(r, "scan", True, where="src/structs", detail="%d variant-conditioned attribute(s) found in struct writers" % n, nontrivial=False)
+
+
+# ---------------------------------------------------------------------------------------------------------------------
+# attribute <-> field agreement
+def _self_fields(n, adt=None):
+    """Names of the fields of `self` mentioned in n (first level: self.<f>)."""
+    out = set()
+    for y in hirq.walk(n):
+        if y.get("k") == "field":
+            b_ = hirq.strip(y.get("base", {}))
+            if b_.get("k") == "path" and b_.get("local") == "self" and (adt is None or y.get("of") == adt):
+                out.add(y["name"])
+    return out
+
+
+def _attr_of_get(n):
+    n = hirq.strip(n)
+    if n.get("k") == "call" and n.get("def", "").endswith("reader::driver::get_attribute") and len(n.get("args", [])) == 2:
+        return _bytes_or_str(n["args"][1])
+    return None
+
+
+def reader_field_map(fb, d, adt):
+    """attribute name -> fields of self written under the test that the attribute is present (recognised idioms only)."""
+    h = fb.hir[d]
+    out = {}
+    bound = {}  # lid -> attr   (let v = get_attribute(e, b"x");)
+    for x in hirq.walk(h["body"]):
+        if x.get("k") == "let" and x.get("init") is not None and x["pat"].get("k") == "bind":
+            a = _attr_of_get(x["init"])
+            if a is not None:
+                bound[x["pat"].get("lid")] = a
+
+    def attr_of(n):
+        a = _attr_of_get(n)
+        if a is not None:
+            return a
+        n = hirq.strip(n)
+        if n.get("k") == "path" and n.get("lid") in bound:
+            return bound[n["lid"]]
+        return None
+
+    for x in hirq.walk(h["body"]):
+        k = x.get("k")
+        if k == "if" and x["cond"].get("k") == "letexpr":
+            a = attr_of(x["cond"]["init"])
+            if a is not None:
+                out.setdefault(a, set()).update(_self_fields(x["then"], adt))
+        elif k == "match":
+            a = attr_of(x["scrut"])
+            if a is not None:
+                for arm in x["arms"]:
+                    out.setdefault(a, set()).update(_self_fields(arm["body"], adt))
+                continue
+            sc = x["scrut"]
+            sc_calls = [c.get("name") or c.get("def", "").split("::")[-1] for c in hirq.calls(sc)]
+            sc_fields = [y.get("name") for y in hirq.walk(sc) if y.get("k") == "field"]
+            if "key" in sc_fields or "key" in sc_calls:
+                for arm in x["arms"]:
+                    for l in hirq.pat_literals(arm["pat"]) or []:
+                        if isinstance(l, str) and not l.startswith("path:"):
+                            out.setdefault(l, set()).update(_self_fields(arm["body"], adt))
+    return out
+
+
+def writer_field_map(fb, d, adt):
+    """attribute name -> fields of self the written value is computed from (through local bindings)."""
+    h = fb.hir[d]
+    lets = {}
+    for x in hirq.walk(h["body"]):
+        if x.get("k") == "let" and x.get("init") is not None and x["pat"].get("k") == "bind":
+            lets[x["pat"].get("lid")] = x["init"]
+
+    def fields_of(n, depth=0):
+        fs = set(_self_fields(n, adt))
+        if depth < 4:
+            for y in hirq.walk(n):
+                if y.get("k") == "path" and y.get("lid") in lets:
+                    fs |= fields_of(lets[y["lid"]], depth + 1)
+        return fs
+
+    out = {}
+    for x in hirq.walk(h["body"]):
+        if x.get("k") == "tup" and len(x.get("es", [])) == 2:
+            v = hirq.lit_value(x["es"][0])
+            if isinstance(v, str) and hirq.strip(x["es"][0]).get("lt") == "str":
+                out.setdefault(v, set()).update(fields_of(x["es"][1]))
+    return out
+
+
+def rule_attr_fields(chk, fb, rid, only=None, floor=250):
+    """One attribute, one field, the same on both sides: a field that the writer emits under attribute names W is fed by
+    the reader from exactly those attributes, and vice versa (only for fields and attributes both sides mention)."""
+    rid = chk.rule(
+        rid,
+        "one attribute, one field, the same on both sides: for every struct with a reader and a writer, a field the writer emits under attribute names N is filled by the reader from those same names and no other attribute both sides know (attribute read into the wrong field, or written from it)",
+        floor=floor,
+    )
+    n = 0
+    for adt in both_sided(fb):
+        if only and adt not in only:
+            continue
+        R, W = {}, {}
+        for d in reader_fns(fb, adt):
+            for a, fs in reader_field_map(fb, d, adt).items():
+                R.setdefault(a, set()).update(fs)
+        for d in writer_fns(fb, adt):
+            for a, fs in writer_field_map(fb, d, adt).items():
+                W.setdefault(a, set()).update(fs)
+        fields = set().union(*R.values()) & set().union(*W.values()) if R and W else set()
+        for f in sorted(fields):
+            ar = {a for a, fs in R.items() if f in fs}
+            aw = {a for a, fs in W.items() if f in fs}
+            # only attribute names the other side knows at all (one-sided names are the business of the name-set rule)
+            ar_c = {a for a in ar if a in W and W[a]}
+            aw_c = {a for a in aw if a in R and R[a]}
+            ok = ar_c <= aw and aw_c <= ar
+            chk.ob(rid, "%s.%s" % (adt.split("::")[-1], f), ok, where=fb.adts[adt]["file"],
+                   detail="read from %s; written as %s" % (sorted(ar), sorted(aw)))
+            n += 1
+    return n
+
+
+# ---------------------------------------------------------------------------------------------------------------------
+# parsed objects are stored as parsed
+PARSED_THEN_CHANGED_OK = {
+    # (function, type of the parsed object, mutating call): reason
+    ("reader::xlsx::styles::read", "Stylesheet", "make_style"): "builds the derived style list from the tables just read; no attribute is rewritten",
+    ("structs::columns::Columns::set_attributes", "Column", "set_col_num"): "a <col min= max=> range is expanded into one Column per index: the number is the loop counter by design",
+}
+
+
+def rule_parsed_as_stored(chk, fb, rid, only_types=None, floor=300):
+    """What a reader parses is what the model gets: once a freshly created object has been filled by its set_attributes*,
+    nothing else in that function changes it before it is handed over (a 'sanity' correction computed from a half-read
+    workbook is the typical violation)."""
+    from mirq import Flow
+    from cfg import CFG
+
+    r = chk.rule(
+        rid,
+        "parsed objects are stored as parsed: in every function that creates an object and fills it with set_attributes*, no later call in that function takes the object by &mut (no setter, no field assignment) - the listed derived-data exceptions aside",
+        floor=floor,
+    )
+    n = 0
+    per = {}
+    for d, b in sorted(fb.mir.items()):
+        if b["file"].startswith("tests") or "::tests::" in d:
+            continue
+        sa_names = [t for _, t in fb.calls_in(b) if t.get("fn", "").split("::")[-1].startswith("set_attributes")]
+        if not sa_names:
+            continue
+        fl = Flow(fb, b)
+        cfg = None
+        for bi, t in fl.calls(lambda t: t.get("fn", "").split("::")[-1].startswith("set_attributes") and t["args"] and "p" in t["args"][0]):
+            root = fl.deref_root(t["args"][0]["p"]["l"])
+            if root <= b["argc"]:
+                continue
+            ty = fb.ty(b["locals"][root]["t"]).split("<")[0].split("::")[-1]
+            if only_types and ty not in only_types:
+                continue
+            cfg = cfg or CFG(b)
+            after = cfg.reachable_strict(bi)
+            changed = []
+            for ci, ct in fl.calls():
+                if ci == bi or ci not in after or ct.get("fn") == t["fn"]:
+                    continue
+                for a in ct["args"]:
+                    if "p" in a and not a["p"].get("pr") and fl.local_ty(a["p"]["l"]).startswith("&mut ") and fl.deref_root(a["p"]["l"]) == root:
+                        nm = ct.get("fn", "?").split("::")[-1]
+                        if (d, ty, nm) not in PARSED_THEN_CHANGED_OK:
+                            changed.append("%s (line %s)" % (nm, ct.get("ln")))
+            for x in after | {bi}:
+                for st in b["blocks"][x]["s"]:
+                    if st["k"] == "assign" and st["lhs"]["l"] == root and st["lhs"].get("pr") and x != bi:
+                        changed.append("field assignment (line %s)" % st.get("ln"))
+            chk.touch(d)
+            k_ = (d, ty)
+            per[k_] = per.get(k_, -1) + 1
+            chk.ob(r, "%s:%s#%d" % (d.split("::", 1)[-1] if "::" in d else d, ty, per[k_]), not changed, where="%s:%s" % (b["file"], t.get("ln")),
+                   detail="after set_attributes the new %s is changed by: %s" % (ty, changed or "nothing"))
+            n += 1
+    return n
